@@ -288,6 +288,19 @@ def collSys (sqrt : K → K) (dt : K) (interp : Interp) (vol : Array K) (noise :
     varDiff := fun _ => tab n fun _ => zero, real := real, sqrt := sqrt,
     maxiter := maxiter, maxerr2 := maxerr2 }
 
+/-- additive noise on a single field with `ncomp` tensor components (`SDEBase.make_noise_variance`, field branch:
+`np.broadcast_to(noise, data_shape)`, flattened: component `c` carries `noise[c % len]`).  The driver builds every
+`field` case through this definition. -/
+def fieldSys (sqrt : K → K) (dt : K) (interp : Interp) (vol : Array K) (noise : List K)
+    (ncomp : Nat) (rate : Nat → Array K → Array K) (real : Option (Array K → Array K))
+    (maxiter : Nat) (maxerr2 : K) : Sys K :=
+  let ncell := vol.size
+  let n := ncomp * ncell
+  { n := n, ncell := ncell, dt := dt, s := sqrt dt, interp := interp, inv := invCell vol,
+    rate := rate, var := fun _ => constVar ncell (fieldVars noise ncomp),
+    varDiff := fun _ => tab n fun _ => zero, real := real, sqrt := sqrt,
+    maxiter := maxiter, maxerr2 := maxerr2 }
+
 /-! ### the rate and variance families the driver instantiates -/
 
 /-- local reaction rate `a + b*u + c*(u*u*u)` with one coefficient triple per component -/
